@@ -24,7 +24,7 @@ def async_sources(tier, seed=0):
     core = [
         ("H1", H.H1((1, 6), (1, 1, 3))), ("H2.L", H.H2("LATEST", (1, 6), (1, 1, 3))), ("H2.B", H.H2("BUFFER", (1, 6), (1, 1, 3))),
         ("H3", H.H3((1, 6), (1, 1, 3))), ("H4", H.H4((1, 6), (1, 1, 3))), ("H5", H.H5((1, 3), (1, 1, 3))),
-        ("H6", H.H6()), ("H6b", H.H6b()), ("H7", H.H7()), ("L3", H.L3()),
+        ("H6", H.H6()), ("H6b", H.H6b()), ("H7", H.H7()), ("H8", H.H8()), ("L3", H.L3()),
     ]
     for n, s in core:
         # (a sink is only scheduled by a fair policy: nothing the supervisor waits for depends on it)
@@ -119,6 +119,11 @@ def raw_sources(tier, seed=0):
         eps = [_timeline({"a": (1, 0, 1), "b": (2, 1, 1), "c": (5, 2, 1)}, [("a", order[0], (0,), False), ("a", order[1], (0, 2), False), ("b", "c", (0,), False)], {"a": na, "b": nb, "c": nc}) for (na, nb, nc) in [(16, 8, 3), (11, 5, 2)]]
         s = H.spec({"a": H.node(32, 1), "b": H.node(16, 1), "c": H.node(4, 1)}, [H.edge("a", order[0], window=wins[order[0]]), H.edge("a", order[1], window=wins[order[1]]), H.edge("b", "c", window=2)], "c")
         out.append(dict(kind="raw", name=f"raw.fanout.{order[0]}{order[1]}", spec=s, episodes=eps))
+    eps = [_timeline({"p": (1, 0, 1), "q": (1, 0, 1), "a": (5, 2, 1), "b": (5, 4, 1)}, [("p", "a", (0,), False), ("p", "b", (0, 1), False), ("q", "a", (0, 2), False), ("q", "b", (0,), False), ("a", "b", (0,), False)],
+                     {"p": n1, "q": n1, "a": n2, "b": n2}) for (n1, n2) in [(17, 3), (12, 2)]]
+    s = H.spec({"p": H.node(32, 1), "q": H.node(32, 1), "a": H.node(4, 1), "b": H.node(4, 1)},
+               [H.edge("p", "a", window=4), H.edge("p", "b", window=1), H.edge("q", "a", window=1), H.edge("q", "b", window=4), H.edge("a", "b", window=1)], "b")
+    out.append(dict(kind="raw", name="raw.cross", spec=s, episodes=eps))
     eps = [_timeline({"a": (1, 0, 1), "b": (12, 3, 2)}, [("a", "b", (0, 1), False), ("b", "a", (1,), True)], {"a": na, "b": nb}) for (na, nb) in [(40, 3), (28, 2)]]
     s = H.spec({"a": H.node(64, 1), "b": H.node(4, 1)}, [H.edge("a", "b", window=3), H.edge("b", "a", skip=True)], "b")
     out.append(dict(kind="raw", name="raw.ratio12", spec=s, episodes=eps))
